@@ -19,6 +19,8 @@ from .core import Ctx, HarnessError, Violation
 
 HERE = os.path.dirname(os.path.dirname(os.path.abspath(__file__)))
 FINDINGS_FILE = os.path.join(HERE, "known-findings.txt")
+# where evidence/ and replays/ are written (overridden when checks are run against scratch copies)
+OUT = os.environ.get("VERIF_OUT") or HERE
 
 
 # ------------------------------------------------------------------------------------------
@@ -63,7 +65,7 @@ def derive_seed(pid, seed, shard):
 
 
 def write_replay(pid, case, key, detail):
-    d = os.path.join(HERE, "replays")
+    d = os.path.join(OUT, "replays")
     os.makedirs(d, exist_ok=True)
     body = {"property": pid, "key": key, "detail": detail, "case": codec.enc(case)}
     path = os.path.join(d, f"{pid}-{codec.digest(case)}.json")
@@ -222,7 +224,7 @@ def _main(mod, pid, a, seed, t0):
     # ---- A. regression replays ------------------------------------------------------------
     n_reg = 0
     rdir = os.path.join(HERE, "regressions", pid)
-    if os.path.isdir(rdir):
+    if os.path.isdir(rdir) and not os.environ.get("VERIF_NO_REGRESSIONS"):
         for fn in sorted(os.listdir(rdir)):
             if not fn.endswith(".json"):
                 continue
@@ -353,8 +355,8 @@ def _main(mod, pid, a, seed, t0):
         "wall_s": round(time.time() - t0, 3),
         "violations": len(violations),
     }
-    os.makedirs(os.path.join(HERE, "evidence"), exist_ok=True)
-    with open(os.path.join(HERE, "evidence", f"{pid}.json"), "w", encoding="utf-8") as fh:
+    os.makedirs(os.path.join(OUT, "evidence"), exist_ok=True)
+    with open(os.path.join(OUT, "evidence", f"{pid}.json"), "w", encoding="utf-8") as fh:
         json.dump(ev, fh, indent=1, ensure_ascii=True)
     print(f"{pid} tier={a.tier} seed={seed} evaluations={ctx.evaluations} "
           f"distinct_nontrivial={len(ctx.nontrivial)} violations={len(violations)} "
